@@ -745,6 +745,9 @@ func compareExpected(exp, post, pre *Snapshot, touched map[string]bool, op Op, s
 				}
 				prop = wholeOp
 			} else if op.Kind == "plan" && pre.Items[id] != nil {
+				if prop == "C20" {
+					out = append(out, Violation{"C20", "expected vs observed after `plan`: " + d})
+				}
 				prop = "C11"
 			} else if op.Kind == "plan" {
 				prop = "C11"
